@@ -11,6 +11,7 @@ import (
 	"fmt"
 	"os"
 	"strconv"
+	"syscall"
 	"testing"
 	"time"
 
@@ -88,6 +89,7 @@ func batch(t *testing.T) {
 	}
 	if !*fFree {
 		run.Init()
+		limitMemory()
 	}
 	var jw *bufio.Writer
 	var jf *os.File
@@ -181,6 +183,7 @@ func one(t *testing.T) {
 	}
 	if !p.Free {
 		run.Init()
+		limitMemory()
 	}
 	var first *run.Result
 	for i := 0; i < *fRepeat; i++ {
@@ -220,4 +223,11 @@ func gen(t *testing.T) {
 	if err := run.WriteJSON(*fOut, r); err != nil {
 		t.Fatal(err)
 	}
+}
+
+// limitMemory turns an absurd allocation (driven by an attacker-chosen length) into an attributable
+// crash instead of eating the machine. Not possible for -race binaries (they reserve terabytes of address space).
+func limitMemory() {
+	lim := syscall.Rlimit{Cur: 24 << 30, Max: 24 << 30}
+	_ = syscall.Setrlimit(syscall.RLIMIT_AS, &lim)
 }
